@@ -35,6 +35,14 @@ def deepcopy(I, v, memo):
         for k, x in v.attrs.items():
             o.attrs[k] = deepcopy(I, x, memo)
         return o
+    if isinstance(v, bm.SDict):
+        if id(v) in memo:
+            return memo[id(v)]
+        d = bm.SDict()
+        d.owner = id(I.ctx)
+        memo[id(v)] = d
+        d.pairs = [(k, deepcopy(I, x, memo)) for k, x in v.pairs]
+        return d
     if isinstance(v, dict):
         if id(v) in memo:
             return memo[id(v)]
@@ -300,6 +308,17 @@ def list_method(I, box, name):
             if isinstance(idx, int) and idx == 0:
                 b.term = core.mk_concat(I, [core.mk_conc(I, [x]), b.term], bm.etype_of_term(I, b.term))
                 return None
+            if items is not None and is_z3(idx):
+                # known list, symbolic position: python clamps the index; fork on the resulting position
+                n = len(items)
+                zi = to_z3(idx)
+                pos = z3.If(zi < 0, z3.If(n + zi < 0, 0, n + zi), z3.If(zi > n, n, zi))
+                for k in range(n + 1):
+                    if k == n or I.ctx.decide(pos == k, "insert position"):
+                        new = list(items)
+                        new.insert(k, x)
+                        b.term = core.mk_conc(I, new)
+                        return None
             if is_z3(idx) or isinstance(idx, int):
                 n = b.term.length()
                 zi = to_z3(idx)
@@ -592,6 +611,9 @@ def segments(I, term):
         return segments(I, term.inner)
     if isinstance(term, FM):
         f = fuse(I, term)
+        if isinstance(f, FM) and not f.is_map and is_identity_filter(I, f):
+            # lemma: a filter all of whose elements pass is the list itself
+            return segments(I, f.src)
         if isinstance(f, FM) and isinstance(f.src, Concat) and index_free(I, f):
             # flatMap distributes over concatenation
             out = []
@@ -607,6 +629,21 @@ def segments(I, term):
                 return r
         return [Seg("fm", fm=f, term=f)]
     return [Seg("opaque", term=term)]
+
+
+def is_identity_filter(I, f):
+    ctx = I.ctx
+    if f.src.etype is None or not f.binds or repr(f.src.etype) != repr(f.etype):
+        return False
+    with ctx.scoped():
+        j = ctx.fresh_int("idj")
+        gm = f.src.any_member(j)
+        goals = [f.count(j) == 1]
+        o = f.out_k(j, 0)
+        if o is None:
+            return False
+        goals.append(I.elem_eq(o, gm.elem))
+        return ctx.entails(z3.Implies(gm.cond, z3.And(goals)), quick=True)
 
 
 def index_free(I, f):
@@ -763,8 +800,46 @@ def same_fm(I, f1, f2):
     return False, ("per-element bodies differ", goal)
 
 
+def strictly_sorted(I, term):
+    ctx = I.ctx
+    if term.etype is None:
+        return False
+    with ctx.scoped():
+        i1, i2 = ctx.fresh_int("q1"), ctx.fresh_int("q2")
+        m1 = term.any_member(i1)
+        m2 = term.any_member(i2)
+        lt = to_z3(bm.lex_lt(I, I.elem_parts(m1.elem), I.elem_parts(m2.elem), True))
+        return ctx.entails(z3.Implies(z3.And(m1.cond, m2.cond, i1 < i2), lt))
+
+
+def subset_of(I, a, b):
+    """every element of list a occurs in list b (the witnesses are the images, in b, of the sources of an
+    arbitrary element of a)"""
+    ctx = I.ctx
+    with ctx.scoped():
+        i = ctx.fresh_int("sub")
+        m = a.any_member(i)
+        b.all_facts.append((TRUE, (lambda e, ix: TRUE), "probe"))
+        ctx.ground()
+        alts = [z3.And(bm_.cond, I.elem_eq(m.elem, bm_.elem)) for bm_ in b.members if bm_.elem is not None]
+        if not alts:
+            return ctx.entails(z3.Not(m.cond))
+        return ctx.entails(z3.Implies(m.cond, z3.Or(alts)))
+
+
+def same_by_sorted_sets(I, t1, t2):
+    """lemma sorted_ext (lean/Lifting.lean): two strictly sorted lists with the same elements are equal"""
+    if t1.etype is None or t2.etype is None:
+        return False
+    if not (strictly_sorted(I, t1) and strictly_sorted(I, t2)):
+        return False
+    return subset_of(I, t1, t2) and subset_of(I, t2, t1)
+
+
 def same_by_extensionality(I, t1, t2):
     """equal length and equal elements at an arbitrary index"""
+    if same_by_sorted_sets(I, t1, t2):
+        return True, None
     ctx = I.ctx
     if ctx.entails(z3.And(t1.length() == 0, t2.length() == 0)):
         return True, None
